@@ -194,7 +194,8 @@ Direct ==
   /\ pc' = "startrun"
   /\ UNCHANGED <<sc, cur, run, st, inp, rdid, step, k, chunks, pend, outs>>
 
-Done == pc = "done" /\ UNCHANGED vars
+\* terminal stuttering step (absent in generation mode, so that a simulated behaviour ends, and prints its CASE, once)
+Done == pc = "done" /\ ~Eager /\ UNCHANGED vars
 
 Next == \/ \E l \in CallLists(sc.script) : AddToolMsg(l)
         \/ AddFinalMsg
